@@ -632,7 +632,7 @@ func oneLine(s string, n int) string {
 }
 
 func writeReplay(v violation) string {
-	dir := filepath.Join(verifRoot, "replays", prop)
+	dir := filepath.Join(outRoot(), "replays", prop)
 	os.MkdirAll(dir, 0755)
 	h := sha1.Sum([]byte(fmt.Sprintf("%s|%s|%d|%s|%s", prop, tier, seed, v.ID, v.Sig)))
 	path := filepath.Join(dir, fmt.Sprintf("%x.json", h[:6]))
@@ -689,8 +689,17 @@ func writeEvidence(res *result, wall time.Duration, nviol int, known map[int][]v
 		"repo_tree": repoState(),
 	}
 	b, _ := json.MarshalIndent(doc, "", " ")
-	os.MkdirAll(filepath.Join(verifRoot, "evidence"), 0755)
-	ioutil.WriteFile(filepath.Join(verifRoot, "evidence", prop+".json"), b, 0644)
+	os.MkdirAll(filepath.Join(outRoot(), "evidence"), 0755)
+	ioutil.WriteFile(filepath.Join(outRoot(), "evidence", prop+".json"), b, 0644)
+}
+
+// outRoot: evidence and replay files of development runs against a scratch worktree
+// (VERIF_GOMOD) must not overwrite those of /repo itself.
+func outRoot() string {
+	if os.Getenv("VERIF_GOMOD") != "" {
+		return filepath.Join(verifRoot, "work", "dev")
+	}
+	return verifRoot
 }
 
 func repoState() string {
